@@ -39,6 +39,13 @@ let () =
           let nm = Instnames.name_of t (cn_of_z real) in
           Printf.printf "NI 0 %s %s\n" (hex_of nm) (lookup arch nm)
         end
+      | "NA" :: arch :: id :: _ ->
+        let arch = int_of_string arch in
+        let t = if arch = 2 then a64t else x86t in
+        let idz = Z.of_string id in
+        let real = if arch = 2 then Z.logand idz (Z.of_int 0xFFFF) else idz in
+        if Z.geq real (z_of_cn t.Instnames.nt_count) then print_endline "NA 1 -"
+        else Printf.printf "NA 0 %s\n" (hex_of (Instnames.formatted_name_of t (cn_of_z real)))
       | "NS" :: arch :: h :: _ ->
         Printf.printf "NS %s\n" (lookup (int_of_string arch) (unhex h))
       | ("V" | "E") :: mode :: inst :: options :: etype :: eid :: nops :: rest ->
